@@ -574,12 +574,29 @@ func runC05(c *cli.Ctx) error {
 	// enforcement (so the delay handed to the timer is <= 0) or shortly after. Resets drop observations: only
 	// self-consistency and liveness are demanded (kind 2).
 	w = emit.NewWriter(c.Out, "C05", "default-timer")
-	for it := 0; it < 60*c.Scale; it++ {
+	rd := emit.NewRng(c.Seed ^ 0x0d1ec7ed) // the directed cases have their own generator: the others keep their inputs
+	for it := 0; it < 100*c.Scale; it++ {
+		// the last 40: a hybrid histogram (classic + native) whose observations all lie above the first classic bound,
+		// the reset due from the start - so maybeReset's immediate reset repeats an observation of a HIGHER classic
+		// bucket, and the first classic bucket must stay empty in every later collection
+		directed := it >= 60*c.Scale
+		r := r
+		if directed {
+			r = rd
+		}
 		conf := genCfg(r)
 		conf.maxZT = 0
+		if directed {
+			conf.classic = []float64{1, 16, 256}
+			conf.factor = []float64{2, 4, 1.5}[r.Intn(3)]
+			conf.maxB = uint32(1 + r.Intn(2))
+		}
 		base := time.Unix(1_700_000_000, 0)
 		var armed, calls int64
 		cross := int64(1 + r.Intn(4)) // the now() call (after arming) from which on the reset is due
+		if directed {
+			cross = 1
+		}
 		nowFn := func() time.Time {
 			if atomic.LoadInt64(&armed) == 0 {
 				return base
@@ -602,9 +619,15 @@ func runC05(c *cli.Ctx) error {
 				if r.Chance(1, 6) {
 					ops[i].v = genValue(r)
 				}
+				if directed {
+					ops[i].v = math.Ldexp(1.5, 1+r.Intn(7)) // 3 .. 192: classic buckets 2 and 3, many sparse buckets
+				}
 			}
 		}
 		armAt := r.Intn(nops)
+		if directed {
+			armAt = 0
+		}
 		var clock int64
 		var obs []obsRec
 		var scr []scrapeRec
@@ -658,7 +681,11 @@ func runC05(c *cli.Ctx) error {
 		if stuck {
 			obs, scr = nil, nil // still owned by the stuck goroutine
 		}
-		w.Add(caseSx(2, conf, obs, scr, final, flags), len(obs) >= 3, fmt.Sprintf("cross-at-now-call:%d", cross), fmt.Sprintf("maxbuckets:%d", conf.maxB))
+		tag := fmt.Sprintf("cross-at-now-call:%d", cross)
+		if directed {
+			tag = "directed-hybrid-immediate-reset"
+		}
+		w.Add(caseSx(2, conf, obs, scr, final, flags), len(obs) >= 3, tag, fmt.Sprintf("maxbuckets:%d", conf.maxB))
 		if stuck {
 			w.Extra["stopped_after_hang_at_run"] = it
 			break
